@@ -83,6 +83,8 @@ pub enum Ty {
     Slice,
     /// `ReverseView<Limb>` = its single field `inner : &[Limb]`; Coq: `list Z`
     RView,
+    /// `&[u8]` (the string front-ends); Coq: `list Z`
+    Bytes,
     /// an iterator, as the list of the items not yet consumed
     Seq(Box<Ty>),
     /// `cmp::Ordering`; Coq: `comparison`
@@ -124,7 +126,7 @@ impl Ty {
             Ty::Powers => "btables".into(),
             Ty::Radix => "bool".into(),
             Ty::Vec | Ty::Big => "vec".into(),
-            Ty::Slice | Ty::RView => "(list Z)".into(),
+            Ty::Slice | Ty::RView | Ty::Bytes => "(list Z)".into(),
             Ty::Seq(t) => format!("(list {})", t.coq()),
             Ty::Ordering => "comparison".into(),
             Ty::OptUpd => "(* option of the updated arguments *)".into(),
